@@ -899,7 +899,57 @@ C08_LOOP = C12_LOOP[:C12_LOOP.index("    #[tokio::test")].replace("verif_battery
 '''
 
 
+# C02: the query splitter and the order-independence of the decision over overlapping privileges
+C02_QUERY = r'''
+#[cfg(test)]
+mod verif_battery_c02_query {
+    use super::*;
+    #[test]
+    fn c02_query_pairs_cut_each_piece_at_its_first_equals_sign() {
+        let uri: hyper::Uri = "/machine?comp=goalstate=x&a=&b&=c&d=1==2&e=%3D".parse().unwrap();
+        let got = query_pairs(&uri);
+        let want: Vec<(String, String)> = [("comp", "goalstate=x"), ("a", ""), ("b", ""), ("d", "1==2"), ("e", "%3D")].iter().map(|(k, v)| (k.to_string(), v.to_string())).collect();
+        assert_eq!(want, got);
+    }
+}
+'''
+
+C02_RULES = r'''
+#[cfg(test)]
+mod verif_battery_c02_rules {
+    use super::*;
+    use crate::key_keeper::key::{AccessControlRules, AuthorizationItem, Identity, Privilege, Role, RoleAssignment};
+    #[test]
+    fn c02_overlapping_privileges_decide_the_same_in_every_build() {
+        // two privileges match the URL, the caller holds only one of them: allowed, whichever the table yields first
+        let claims = crate::proxy::Claims { userId: 0, userName: "u1".to_string(), userGroups: vec![], processId: 1, processFullPath: std::path::PathBuf::from("/p"), clientIp: "0".to_string(), clientPort: 0,
+            processName: std::ffi::OsString::from("p"), processCmdLine: "p".to_string(), runAsElevated: true };
+        let mut denied = 0;
+        for round in 0..64 {
+            let mut privileges = vec![];
+            for k in 0..(1 + round % 5) { privileges.push(Privilege { name: format!("filler{}", k), path: format!("/other{}", k), queryParameters: None }); }
+            privileges.push(Privilege { name: "broad".to_string(), path: "/machine".to_string(), queryParameters: None });
+            privileges.push(Privilege { name: "narrow".to_string(), path: "/machine/plugins".to_string(), queryParameters: None });
+            let rules = AccessControlRules {
+                roles: Some(vec![Role { name: "r".to_string(), privileges: vec!["narrow".to_string()] }, Role { name: "other".to_string(), privileges: vec!["broad".to_string()] }]),
+                privileges: Some(privileges),
+                identities: Some(vec![Identity { name: "i".to_string(), userName: Some("u1".to_string()), groupName: None, exePath: None, processName: None },
+                                      Identity { name: "someone-else".to_string(), userName: Some("u2".to_string()), groupName: None, exePath: None, processName: None }]),
+                roleAssignments: Some(vec![RoleAssignment { role: "r".to_string(), identities: vec!["i".to_string()] }, RoleAssignment { role: "other".to_string(), identities: vec!["someone-else".to_string()] }]),
+            };
+            let item = ComputedAuthorizationItem::from_authorization_item(AuthorizationItem { defaultAccess: "deny".to_string(), mode: "enforce".to_string(), rules: Some(rules), id: "x".to_string() });
+            let mut logger = crate::proxy::proxy_connection::ConnectionLogger::new(0, 0);
+            if !item.is_allowed(&mut logger, "/machine/plugins?comp=config".parse().unwrap(), claims.clone()) { denied += 1; }
+        }
+        assert_eq!(0, denied, "a caller granted `narrow` was denied in {} of 64 rule-set builds (a privilege it does not hold matched first)", denied);
+    }
+}
+'''
+
+
 BATTERIES = {
+    "C02": [("azure-proxy-agent", [("proxy_agent/src/common/hyper_client.rs", C02_QUERY), ("proxy_agent/src/proxy/authorization_rules.rs", C02_RULES)], "verif_battery_c02", True)],
+    "C04": [("azure-proxy-agent", [("proxy_agent/src/common/helpers.rs", __import__("p_c04").MAC_TEST), ("proxy_agent/src/common/hyper_client.rs", C02_QUERY.replace("verif_battery_c02_query", "verif_battery_c04_query").replace("fn c02_", "fn c04_"))], "verif_battery_c04", True)],
     "C08": [("proxy_agent_shared", [("proxy_agent_shared/src/misc_helpers.rs", C08_SHARED)], "verif_battery_c08_file", False),
             ("azure-proxy-agent", [("proxy_agent/src/key_keeper.rs", C08_AGENT + C08_LOOP)], "verif_battery_c08_key", True)],
     "C09": [("azure-proxy-agent", [("proxy_agent/src/key_keeper/key.rs", C09_KEY), ("proxy_agent/src/shared_state/key_keeper_wrapper.rs", C09_WRAPPER)], "verif_battery_c09", True)],
